@@ -159,12 +159,26 @@ theorem C06_bytes_order (a b c : List Nat) :
 /-! ### number literals -/
 
 /-- Every spelling of the grammar — every base, separator position, fraction, exponent and
-multiplier — denotes exactly the spec's value, inside the region where the implementation is
-right (exponent window; multiplied mantissa an integer of at most 34 digits). -/
-theorem C06_literal_partial (l : Lit) (hwf : l.wf = true) (hw : l.inWindow) (hi : l.siIntegral)
+multiplier — is accepted by `compiler.parse` (gate `ParseNum` + `NumInfo.decimal`) with the
+grammar's kind and denotes exactly the spec's value, inside the region where the implementation
+is right (no superfluous leading zero before a multiplier; exponent window; multiplied mantissa an
+integer of at most 34 digits). -/
+theorem C06_literal_partial (l : Lit) (hwf : l.wf = true) (hz : l.siLeadingZero = false)
+    (hw : l.inWindow) (hi : l.siIntegral) (hf : l.siFits prec) :
+    ∃ n, litValue l.spell = .ok n ∧ n.k = l.kind ∧ toRat n.d = l.denote :=
+  NumValLit.literal_litValue l hwf hz hw hi hf
+
+/-- the value reader alone (no gate, leading zeros allowed) -/
+theorem C06_literal_value (l : Lit) (hwf : l.wf = true) (hw : l.inWindow) (hi : l.siIntegral)
     (hf : l.siFits prec) :
     ∃ n, readValue l.kind l.spell = .ok n ∧ n.k = l.kind ∧ toRat n.d = l.denote :=
   NumValLit.literal_value l hwf hw hi hf
+
+/-- C09's automaton `ParseNum` accepts every grammar spelling with the grammar's kind, except
+`si_lit`s with a superfluous leading zero. -/
+theorem C06_literal_accepted (l : Lit) (hwf : l.wf = true) (hz : l.siLeadingZero = false) :
+    NumLit.parseNumUnsigned l.spell = some l.kind :=
+  NumValLit.literal_accepted l hwf hz
 
 example : (Lit.si [49] (some [53]) ⟨.K, true⟩).wf = true ∧
     readValue .int (Lit.si [49] (some [53]) ⟨.K, true⟩).spell = .ok ⟨.int, ⟨1536, 0⟩⟩ := by decide
@@ -178,14 +192,15 @@ theorem C06_literal_false : ¬ C06_literal_stmt := NumValLit.literal_false
 theorem C06_literal_false_trunc :
     litValue (Lit.si [49] (some [51]) ⟨.K, true⟩).spell = .err ∧
     (Lit.si [49] (some [51]) ⟨.K, true⟩).denote = 1331 := NumValLit.literal_false_trunc
+/-- FALSE also for: `12345678901234567890123456789012345678K` (rounded to 34 digits). -/
+theorem C06_literal_false_round :
+    litValue (Lit.si [49,50,51,52,53,54,55,56,57,48,49,50,51,52,53,54,55,56,57,48,49,50,51,52,53,54,55,56,57,48,49,50,51,52,53,54,55,56] none ⟨.K, false⟩).spell
+      = .ok ⟨.int, ⟨12345678901234567890123456789012350000000, 0⟩⟩ ∧
+    (Lit.si [49,50,51,52,53,54,55,56,57,48,49,50,51,52,53,54,55,56,57,48,49,50,51,52,53,54,55,56,57,48,49,50,51,52,53,54,55,56] none ⟨.K, false⟩).denote
+      = 12345678901234567890123456789012345678000 := NumValLit.literal_false_round
 theorem C06_literal_false_exponent :
     litValue (Lit.fExp [49] ⟨false, .none, [49, 48, 48, 48, 48, 49]⟩).spell = .ok ⟨.float, ⟨1, 0⟩⟩ ∧
     (Lit.fExp [49] ⟨false, .none, [49, 48, 48, 48, 48, 49]⟩).denote ≠ 1 := NumValLit.literal_false_exponent
-
-/-- OPEN (believed true): the scanner gate `ParseNum` (C09's automaton) accepts every grammar
-spelling with the grammar's kind, except `si_lit`s with a superfluous leading zero.  Tied by
-correspondence only. -/
-def C06_literal_accepted_stmt : Prop := NumValLit.literal_accepted_stmt
 
 /-! ### printing -/
 
